@@ -166,6 +166,12 @@ impl CustomAccountInterface for TimelockController {
         context_meta: Vec<OperationMeta>,
         auth_contexts: Vec<Context>,
     ) -> Result<(), Self::Error> {
+        // Every authorized context must come with its own operation descriptor: `zip` stops at
+        // the shorter side and would otherwise let the remaining contexts through unexamined.
+        if context_meta.len() != auth_contexts.len() {
+            panic_with_error!(&e, TimelockError::Unauthorized)
+        }
+
         for (context, meta) in auth_contexts.iter().zip(context_meta) {
             match context.clone() {
                 Context::Contract(ContractContext { contract, fn_name, args }) => {
